@@ -189,6 +189,86 @@ func extractStartup(t *T) (string, error) {
 	} else {
 		return "", err
 	}
+	// State.getLiteral: after a download from the connector the cache is refilled with the bytes that are served
+	// (literalWithHeader), not with the raw connector literal
+	if sf, err := t.ParseFile("internal/state/state.go"); err == nil {
+		v := ""
+		if fd := FuncDecl(sf, "State", "getLiteral"); fd != nil {
+			ast.Inspect(fd.Body, func(n ast.Node) bool {
+				c, ok := n.(*ast.CallExpr)
+				if !ok {
+					return true
+				}
+				sel, ok := c.Fun.(*ast.SelectorExpr)
+				if !ok || sel.Sel.Name != "Set" || len(c.Args) != 2 {
+					return true
+				}
+				v = "false"
+				if rd, ok := c.Args[1].(*ast.CallExpr); ok && len(rd.Args) == 1 && isIdentNamed(rd.Args[0], "literalWithHeader") {
+					v = "true"
+				}
+				return false
+			})
+		}
+		def("redownload_refills_served_bytes", v, "getLiteral: store.Set(id, bytes.NewReader(literalWithHeader)) after a download from the connector")
+	} else {
+		return "", err
+	}
+	// actionImportRecoveredMessage: the literal of the new copy is written under the NEW internal id
+	if af, err := t.ParseFile("internal/state/actions.go"); err == nil {
+		v := ""
+		if fd := FuncDecl(af, "State", "actionImportRecoveredMessage"); fd != nil {
+			ast.Inspect(fd.Body, func(n ast.Node) bool {
+				c, ok := n.(*ast.CallExpr)
+				if !ok {
+					return true
+				}
+				sel, ok := c.Fun.(*ast.SelectorExpr)
+				if !ok || sel.Sel.Name != "SetUnchecked" || len(c.Args) != 2 {
+					return true
+				}
+				v = "false"
+				if isIdentNamed(c.Args[0], "internalID") {
+					v = "true"
+				}
+				return false
+			})
+		}
+		def("recovered_import_writes_new_id", v, "actionImportRecoveredMessage: store.SetUnchecked(internalID, ...) - the id of the new copy, not the recovered source's")
+	} else {
+		return "", err
+	}
+	// backend.AddUser: after a failed database.Init the database is deleted and recreated ONLY for a failed migration /
+	// an invalid version; every other failure returns the error and leaves the files alone
+	if bf, err := t.ParseFile("internal/backend/backend.go"); err == nil {
+		v := ""
+		if fd := FuncDecl(bf, "Backend", "AddUser"); fd != nil {
+			ast.Inspect(fd.Body, func(n ast.Node) bool {
+				is, ok := n.(*ast.IfStmt)
+				if !ok {
+					return true
+				}
+				src := t.Src("internal/backend/backend.go", is.Cond)
+				if !strings.Contains(src, "ErrMigrationFailed") {
+					return true
+				}
+				v = "false"
+				norm := strings.Join(strings.Fields(src), " ")
+				// the early return is taken when the error is NEITHER of the two
+				if norm == "!errors.Is(err, db.ErrMigrationFailed) && !errors.Is(err, db.ErrInvalidDatabaseVersion)" {
+					if n := len(is.Body.List); n > 0 {
+						if rs, ok := is.Body.List[n-1].(*ast.ReturnStmt); ok && len(rs.Results) == 2 && isIdentNamed(rs.Results[1], "err") {
+							v = "true"
+						}
+					}
+				}
+				return false
+			})
+		}
+		def("failed_init_keeps_database", v, "AddUser: `if !errors.Is(err, db.ErrMigrationFailed) && !errors.Is(err, db.ErrInvalidDatabaseVersion) { ...; return false, err }` before the database is deleted")
+	} else {
+		return "", err
+	}
 	return sb.String(), nil
 }
 
